@@ -210,10 +210,59 @@ def session_cases(m, e, r):
     return out
 
 
+DEC = None
+
+
+def gen_noisy(rng):
+    """landscapes with decimal coordinates (tenths, off-lattice offsets): differences and combinations whose critical values carry rounding noise, so
+    that segments are flat only up to the last bits"""
+    def bars(n):
+        out = []
+        while len(out) < n:
+            b = rng.randint(0, 60) / 10.0 + rng.choice([0.0, 0.0, 0.05, 0.03])
+            d = b + rng.randint(2, 60) / 10.0 + rng.choice([0.0, 0.0, 0.01])
+            out.append([b, d])
+        return out
+    a = dict(t="dgm", bars=bars(rng.randint(1, 5)))
+    b = dict(t="dgm", bars=bars(rng.randint(1, 4)))
+    k = rng.choice(["sub", "sub", "lin", "dgm"])
+    if k == "dgm":
+        return dict(a, noisy=1)
+    if k == "sub":
+        return dict(t="sub", a=a, b=b, noisy=1)
+    return dict(t="lin", a=a, b=b, ca=rng.choice([1.0, 2.0, 0.5]), cb=rng.choice([-1.0, -0.5, 1.0]), noisy=1)
+
+
+def noisy_case(r):
+    """-> TraceNorms "fnorms" case from the observed content (exact class), zero crossings inserted with exact rational arithmetic"""
+    c = r["content"]
+    if c["kind"] != 1:
+        return None
+    depths = []
+    for d in c["cps"]:
+        pts = [(Fraction(unfl(x)), Fraction(unfl(y))) for x, y in d]
+        out = []
+        for i, (x, y) in enumerate(pts):
+            out.append([fix(x), fix(y), 0])
+            if i + 1 < len(pts):
+                x1, y1 = pts[i + 1]
+                if (y < 0 < y1) or (y1 < 0 < y):
+                    z = x + (x1 - x) * abs(y) / (abs(y) + abs(y1))
+                    out.append([fix(z), fix(0), 1])
+        depths.append(out)
+    norms = []
+    for p in PS:
+        o = obs_num(r["norms"].get(str(p)), lambda v, p=p: v ** p)
+        norms.append([p] + o)
+    return dict(kind="fnorms", pts=depths, norms=norms, sup=obs_num(r["sup"], lambda v: v))
+
+
 def validate(ctx, makes, embs, label, nproc=12):
     jobs = []
     for m, e in zip(makes, embs):
-        if m["t"] == "session":
+        if m.get("noisy"):
+            jobs.append(dict(kind="norms", make={k_: v_ for k_, v_ in m.items() if k_ != "noisy"}, ps=PS))
+        elif m["t"] == "session":
             jobs.append(dict(kind="session", a=to_float_make(m["a"], e), b=to_float_make(m["b"], e), c=m["c"], order=m["order"], rmul=m["rmul"], ps=PS + LAW_REAL_PS))
         elif m["t"] == "stab":
             jobs.append(dict(kind="stab", X=[[e.f(b), e.f(d)] for b, d in m["X"]], Y=[[e.f(b), e.f(d)] for b, d in m["Y"]]))
@@ -226,6 +275,13 @@ def validate(ctx, makes, embs, label, nproc=12):
             if "sup" not in r:
                 ctx.failure({"clause": "no-result", "detail": r.get("raised")}, {"kind": "norms", "make": m, "emb": e.name}); continue
             cases.append(dict(kind="stab", X=m["X"], Y=m["Y"], sup=obs_num(r["sup"], lambda v: v / e.s), bott=obs_num(r["bott"], lambda v: v / e.s))); idx.append(i)
+            continue
+        if m.get("noisy"):
+            if "content" not in r:
+                ctx.failure({"clause": "no-result", "detail": {k: r.get(k) for k in ("raised", "msg")}}, {"kind": "norms", "make": m, "emb": e.name}); continue
+            nc = noisy_case(r)
+            if nc is not None:
+                cases.append(nc); idx.append(i)
             continue
         if m["t"] == "session":
             if "cP" not in r:
@@ -257,7 +313,7 @@ def validate(ctx, makes, embs, label, nproc=12):
     ctx.extra.setdefault("trace_validation_runs", []).append(dict(label=label, cases=len(cases), tlc_states=st["states"], wall_s=round(st["wall"], 1)))
     for c, v, i in zip(cases, verdicts, idx):
         status, clause, pp = v[2], v[3], v[4]
-        nt = c["kind"] in ("stab", "laws") or has_crossing(c["obj"])
+        nt = c["kind"] in ("stab", "laws", "fnorms") or has_crossing(c["obj"])
         ctx.count(1, key=str(makes[i]) + embs[i].name, nontrivial=nt)
         if status == "ok":
             ctx.ok_trace()
@@ -266,7 +322,11 @@ def validate(ctx, makes, embs, label, nproc=12):
             ctx.extra["excluded_C03_known_finding_inputs"] = ctx.extra.get("excluded_C03_known_finding_inputs", 0) + 1
             ctx.traces_total += 1
         else:
+            if status == "machinery":
+                ctx.machinery_errors.append("TraceNorms: %s on %s" % (clause, makes[i])); continue
             info = {"clause": clause, "p_or_k": pp, "crossing": bool(c["kind"] == "norms" and has_crossing(c["obj"]))}
+            if c["kind"] == "fnorms":
+                info["coordinates"] = "decimal (critical values carry rounding noise)"
             if makes[i]["t"] == "session":
                 info["session"] = c.get("session_part", "laws")
             ctx.failure(info, {"kind": "norms", "make": makes[i], "emb": embs[i].name})
@@ -290,7 +350,10 @@ def run(ctx):
         makes.append(dict(t="stab", X=rand_bars(rng, 0, 14, rng.randint(1, 4)), Y=rand_bars(rng, 0, 14, rng.randint(1, 4))))
     for _ in range(n // 4):
         makes.append(gen_session(rng))
-    embs = [EXACT_EMBS[i % 6] for i in range(len(makes))]      # incl. scales 2^-50 and 2^30 (absolute tolerances in the code show there)
+    n_lat = len(makes)
+    for _ in range(n // 3):
+        makes.append(gen_noisy(rng))
+    embs = [EXACT_EMBS[i % 6] if i < n_lat else EXACT_EMBS[0] for i in range(len(makes))]      # (the decimal family is not embedded) incl. scales 2^-50 and 2^30 (absolute tolerances in the code show there)
     validate(ctx, makes, embs, "V")
 
     lazy.run(ctx, "C10", quick)
